@@ -4,7 +4,7 @@ package z80
 // reference Step by the arm obligations of executeOne).
 
 // vsPlain: the state is an ordinary machine state (no mode-0 instruction supply active).
-func vsPlain(s *VState) bool { return !s.IntMode && !s.OvMode }
+func vsPlain(s *VState) bool { return !s.IntMode && !s.OvMode && !s.Open }
 
 func vsSameRegs(a, b *VState) bool {
 	return a.A == b.A && a.F == b.F && a.B == b.B && a.C == b.C && a.D == b.D && a.E == b.E && a.H == b.H && a.L == b.L &&
